@@ -50,7 +50,7 @@ fn secp() -> &'static Secp256k1<secp256k1::All> {
 
 /* ------------------------------------------------------------------ key material */
 
-pub const NKEYS: u32 = 10;
+pub const NKEYS: u32 = 12;
 
 struct KeyInfo {
     text: String,
@@ -75,6 +75,15 @@ fn key_table() -> &'static Vec<KeyInfo> {
                 let mut fp = [0u8; 4];
                 fp.copy_from_slice(&h[0..4]);
                 return KeyInfo { text: pk.to_string(), secret: sk, public: pk, fp: Fingerprint::from(fp), path: DerivationPath::master() };
+            }
+            if k >= 10 {
+                // UNCOMPRESSED single keys with an explicit origin `[deadbeef/1'/k]04…` (legal in
+                // pkh / sh / bare; never in segwit or taproot)
+                let sk = ast::secret(60 + k);
+                let pk = PublicKey::new_uncompressed(secp256k1::PublicKey::from_secret_key(secp(), &sk));
+                let path = vec![ChildNumber::from_hardened_idx(1).unwrap(), ChildNumber::from_normal_idx(k).unwrap()];
+                return KeyInfo { text: format!("[deadbeef/1'/{}]{}", k, pk), secret: sk, public: pk,
+                    fp: Fingerprint::from([0xde, 0xad, 0xbe, 0xef]), path: DerivationPath::from(path) };
             }
             let acct_path = vec![ChildNumber::from_hardened_idx(48).unwrap(), ChildNumber::from_hardened_idx(k).unwrap()];
             let acct = master.derive_priv(secp(), &acct_path).unwrap();
@@ -120,12 +129,12 @@ fn hash_text(j: usize) -> String {
 /* ------------------------------------------------------------------ descriptor specs */
 
 #[derive(Clone, Copy, Debug, PartialEq, Eq)]
-pub enum Kind { Pk, Pkh, Wpkh, ShWpkh, Wsh, ShWsh, Sh, Tr }
+pub enum Kind { Pk, Pkh, Wpkh, ShWpkh, Wsh, ShWsh, Sh, Tr, Bare }
 impl Kind {
     fn name(self) -> &'static str {
-        match self { Kind::Pk => "pk", Kind::Pkh => "pkh", Kind::Wpkh => "wpkh", Kind::ShWpkh => "shwpkh", Kind::Wsh => "wsh", Kind::ShWsh => "shwsh", Kind::Sh => "sh", Kind::Tr => "tr" }
+        match self { Kind::Pk => "pk", Kind::Pkh => "pkh", Kind::Wpkh => "wpkh", Kind::ShWpkh => "shwpkh", Kind::Wsh => "wsh", Kind::ShWsh => "shwsh", Kind::Sh => "sh", Kind::Tr => "tr", Kind::Bare => "bare" }
     }
-    fn segwit(self) -> bool { !matches!(self, Kind::Pk | Kind::Pkh | Kind::Sh) }
+    fn segwit(self) -> bool { !matches!(self, Kind::Pk | Kind::Pkh | Kind::Sh | Kind::Bare) }
 }
 
 #[derive(Clone)]
@@ -149,10 +158,25 @@ pub struct Spec {
 struct TapLeaf { script: ScriptBuf, cb: ControlBlock, hash: TapLeafHash, keys: Vec<u32> }
 
 fn expand(tmpl: &str) -> String {
-    let mut s = tmpl.to_string();
-    for k in (0..NKEYS).rev() { s = s.replace(&format!("K{}", k), &key(k).text); }
-    for j in (0..NHASHES).rev() { s = s.replace(&format!("H{}", j), &hash_text(j)); }
-    s
+    // single pass: `K<n>` / `H<n>` are atoms only directly after `(`, `,` or `{` (xpub strings
+    // may themselves contain "K4")
+    let b: Vec<char> = tmpl.chars().collect();
+    let mut out = String::new();
+    let mut i = 0;
+    while i < b.len() {
+        let c = b[i];
+        let at_start = i == 0 || matches!(b[i - 1], '(' | ',' | '{');
+        if at_start && (c == 'K' || c == 'H') && i + 1 < b.len() && b[i + 1].is_ascii_digit() {
+            let mut j = i + 1;
+            while j < b.len() && b[j].is_ascii_digit() { j += 1; }
+            let n: u32 = b[i + 1..j].iter().collect::<String>().parse().unwrap();
+            if c == 'K' && n < NKEYS { out.push_str(&key(n).text); i = j; continue; }
+            if c == 'H' && (n as usize) < NHASHES { out.push_str(&hash_text(n as usize)); i = j; continue; }
+        }
+        out.push(c);
+        i += 1;
+    }
+    out
 }
 fn unexpand(text: &str) -> String {
     let mut s = text.to_string();
@@ -180,7 +204,7 @@ fn contains_sub(hay: &[u8], needle: &[u8]) -> bool { hay.windows(needle.len()).a
 fn spec_from_desc(desc: Descriptor<DefiniteDescriptorKey>, sane: bool) -> Option<Spec> {
     let derived = desc.derived_descriptor(secp());
     let kind = match derived.desc_type() {
-        DescriptorType::Bare => { if derived.script_pubkey().is_p2pk() { Kind::Pk } else { return None } }
+        DescriptorType::Bare => { if derived.script_pubkey().is_p2pk() { Kind::Pk } else { Kind::Bare } }
         DescriptorType::Pkh => Kind::Pkh,
         DescriptorType::Wpkh => Kind::Wpkh,
         DescriptorType::ShWpkh => Kind::ShWpkh,
@@ -220,7 +244,7 @@ fn spec_from_tmpl(tmpl: &str) -> Option<Spec> {
     let text = expand(tmpl);
     match Descriptor::<DefiniteDescriptorKey>::from_str(&text) {
         Ok(d) => spec_from_desc(d, true),
-        Err(_) => None,
+        Err(e) => { if std::env::var("C14_DEBUG").is_ok() { eprintln!("rejected {}: {}", tmpl, e); } None }
     }
 }
 
@@ -279,7 +303,14 @@ const MALL_POOL: &[&str] = &[
 
 pub fn build_pool(rng: &mut Rng, thorough: bool) -> (Vec<Spec>, Vec<Spec>) {
     let mut pool = vec![];
-    for t in ["pk(K0)", "pkh(K1)", "wpkh(K2)", "sh(wpkh(K3))", "wpkh(K9)", "pkh(K9)"] {
+    for t in ["pk(K0)", "pkh(K1)", "wpkh(K2)", "sh(wpkh(K3))", "wpkh(K9)", "pkh(K9)",
+              // uncompressed keys
+              "pk(K10)", "pkh(K10)", "pkh(K11)", "sh(multi(2,K10,K1,K11))", "sh(and_v(v:pk(K10),pk(K0)))", "sh(pkh(K11))",
+              "sh(sortedmulti(1,K10,K2))",
+              // bare scripts that are not P2PK
+              // (bare standardness admits only pk, pkh and multi up to n = 3)
+              "multi(1,K0,K1)", "multi(2,K0,K1,K2)", "multi(1,K10,K0)", "sortedmulti(2,K11,K1,K2)", "multi(1,K3)",
+              "multi(3,K0,K1,K2)", "multi(2,K10,K11)", "sortedmulti(1,K1,K0)", "multi(1,K11,K10,K4)", "multi(2,K5,K6)"] {
         if let Some(s) = spec_from_tmpl(t) { pool.push(s); }
     }
     for m in MS_POOL {
@@ -354,6 +385,8 @@ struct Case {
     /// blank PSBT: unsigned tx + utxo fields only
     psbt0: Psbt,
     label: String,
+    /// transaction output j pays to the descriptor of input `out_desc[j]` (None: a plain script)
+    out_desc: Vec<Option<usize>>,
 }
 
 fn flip(d: [u8; 32]) -> [u8; 32] { let mut e = d; for b in e.iter_mut() { *b ^= 0x5a; } e }
@@ -373,7 +406,7 @@ fn ecdsa_digest(spec: &Spec, tx: &Transaction, idx: usize, utxo: &TxOut) -> Opti
     let mut cache = SighashCache::new(tx);
     let d = &spec.derived;
     Some(match spec.kind {
-        Kind::Pk | Kind::Pkh => cache.legacy_signature_hash(idx, &utxo.script_pubkey, EcdsaSighashType::All.to_u32()).ok()?.to_byte_array(),
+        Kind::Pk | Kind::Pkh | Kind::Bare => cache.legacy_signature_hash(idx, &utxo.script_pubkey, EcdsaSighashType::All.to_u32()).ok()?.to_byte_array(),
         Kind::Sh => cache.legacy_signature_hash(idx, &d.explicit_script().ok()?, EcdsaSighashType::All.to_u32()).ok()?.to_byte_array(),
         Kind::Wsh | Kind::ShWsh => cache.p2wsh_signature_hash(idx, &d.explicit_script().ok()?, utxo.value, EcdsaSighashType::All).ok()?.to_byte_array(),
         Kind::Wpkh => cache.p2wpkh_signature_hash(idx, &utxo.script_pubkey, utxo.value, EcdsaSighashType::All).ok()?.to_byte_array(),
@@ -384,6 +417,38 @@ fn ecdsa_digest(spec: &Spec, tx: &Transaction, idx: usize, utxo: &TxOut) -> Opti
         }
         Kind::Tr => return None,
     })
+}
+
+pub const ECDSA_TYPES: [EcdsaSighashType; 6] = [EcdsaSighashType::All, EcdsaSighashType::None, EcdsaSighashType::Single,
+    EcdsaSighashType::AllPlusAnyoneCanPay, EcdsaSighashType::NonePlusAnyoneCanPay, EcdsaSighashType::SinglePlusAnyoneCanPay];
+pub const TAP_TYPES: [TapSighashType; 7] = [TapSighashType::Default, TapSighashType::All, TapSighashType::None, TapSighashType::Single,
+    TapSighashType::AllPlusAnyoneCanPay, TapSighashType::NonePlusAnyoneCanPay, TapSighashType::SinglePlusAnyoneCanPay];
+
+/// ECDSA digest of input `idx` for an arbitrary sighash type (rust-bitcoin only)
+fn ecdsa_digest_typed(spec: &Spec, tx: &Transaction, idx: usize, utxo: &TxOut, ty: EcdsaSighashType) -> Option<[u8; 32]> {
+    let mut cache = SighashCache::new(tx);
+    let d = &spec.derived;
+    Some(match spec.kind {
+        Kind::Pk | Kind::Pkh | Kind::Bare => cache.legacy_signature_hash(idx, &utxo.script_pubkey, ty.to_u32()).ok()?.to_byte_array(),
+        Kind::Sh => cache.legacy_signature_hash(idx, &d.explicit_script().ok()?, ty.to_u32()).ok()?.to_byte_array(),
+        Kind::Wsh | Kind::ShWsh => cache.p2wsh_signature_hash(idx, &d.explicit_script().ok()?, utxo.value, ty).ok()?.to_byte_array(),
+        Kind::Wpkh => cache.p2wpkh_signature_hash(idx, &utxo.script_pubkey, utxo.value, ty).ok()?.to_byte_array(),
+        Kind::ShWpkh => {
+            let pk = key(spec.keys[0]).public;
+            let inner = ScriptBuf::new_p2wpkh(&pk.wpubkey_hash().ok()?);
+            cache.p2wpkh_signature_hash(idx, &inner, utxo.value, ty).ok()?.to_byte_array()
+        }
+        Kind::Tr => return None,
+    })
+}
+/// taproot digest (key path: `leaf = None`) for an arbitrary sighash type (rust-bitcoin only)
+fn tap_digest_typed(tx: &Transaction, idx: usize, prevouts: &[TxOut], leaf_script: Option<&ScriptBuf>, ty: TapSighashType) -> Option<[u8; 32]> {
+    let mut cache = SighashCache::new(tx);
+    // ANYONECANPAY needs this input's prevout only; `Prevouts::All` is accepted for every type
+    match leaf_script {
+        None => cache.taproot_key_spend_signature_hash(idx, &Prevouts::All(prevouts), ty).ok().map(|h| h.to_byte_array()),
+        Some(s) => cache.taproot_script_spend_signature_hash(idx, &Prevouts::All(prevouts), TapLeafHash::from_script(s, LeafVersion::TapScript), ty).ok().map(|h| h.to_byte_array()),
+    }
 }
 
 fn build_case(specs: Vec<Spec>, rng: &mut Rng) -> Case {
@@ -426,11 +491,19 @@ fn build_case(specs: Vec<Spec>, rng: &mut Rng) -> Case {
         version: transaction::Version::TWO,
         lock_time: absolute::LockTime::from_consensus(lt),
         input: txins,
-        output: vec![
-            TxOut { value: Amount::from_sat(20_000), script_pubkey: inputs[0].spec.derived.script_pubkey() },
-            TxOut { value: Amount::from_sat(10_000), script_pubkey: ScriptBuf::from_bytes(vec![0x51]) },
-        ],
+        output: vec![],
     };
+    let mut tx = tx;
+    // outputs: one per input descriptor plus a plain one; sometimes FEWER outputs than inputs
+    // (SIGHASH_SINGLE with an input index that has no matching output)
+    let few = n > 1 && rng.below(4) == 0;
+    let mut out_desc: Vec<Option<usize>> = vec![];
+    for j in 0..(if few { 1 } else { n }) {
+        tx.output.push(TxOut { value: Amount::from_sat(20_000 + j as u64), script_pubkey: inputs[j].spec.derived.script_pubkey() });
+        out_desc.push(Some(j));
+    }
+    if !few { tx.output.push(TxOut { value: Amount::from_sat(10_000), script_pubkey: ScriptBuf::from_bytes(vec![0x51]) }); out_desc.push(None); }
+    let tx = tx;
     // signatures (independent digests)
     let prevouts: Vec<TxOut> = inputs.iter().map(|c| c.utxo.clone()).collect();
     for i in 0..n {
@@ -460,7 +533,7 @@ fn build_case(specs: Vec<Spec>, rng: &mut Rng) -> Case {
     for i in 0..n { set_utxo(&mut psbt0, &inputs[i], i); }
     let label = format!("lt={};{}", lt, inputs.iter().enumerate().map(|(i, c)|
         format!("{}@{}@{}", c.spec.tmpl, c.mode.name(), psbt0.unsigned_tx.input[i].sequence.to_consensus_u32())).collect::<Vec<_>>().join(";"));
-    Case { inputs, psbt0, label }
+    Case { inputs, psbt0, label, out_desc }
 }
 
 fn set_utxo(p: &mut Psbt, c: &InpCase, i: usize) {
@@ -473,7 +546,7 @@ fn set_utxo(p: &mut Psbt, c: &InpCase, i: usize) {
 #[derive(Clone, Debug, PartialEq, Eq, PartialOrd, Ord)]
 enum Op {
     Update(usize), Sig(usize, u32, bool), KeySig(usize, bool), Pre(usize, usize, bool),
-    Corrupt(usize), Drop(usize), Restore(usize), Garbage(usize), ShortPrev(usize),
+    Corrupt(usize), Drop(usize), Restore(usize), Garbage(usize), ShortPrev(usize), SighashField(usize), DropOrigins(usize),
     Fin, FinMall, FinInp(usize), FinInpMall(usize), Extract, OldFin, OldFinMall,
 }
 impl Op {
@@ -485,6 +558,7 @@ impl Op {
             Op::Pre(i, j, g) => format!("{}{}.{}", if *g { "p" } else { "q" }, i, j),
             Op::Corrupt(i) => format!("x{}", i), Op::Drop(i) => format!("d{}", i),
             Op::Restore(i) => format!("r{}", i), Op::Garbage(i) => format!("g{}", i), Op::ShortPrev(i) => format!("v{}", i),
+            Op::SighashField(i) => format!("h{}", i), Op::DropOrigins(i) => format!("o{}", i),
             Op::Fin => "F".into(), Op::FinMall => "M".into(),
             Op::FinInp(i) => format!("f{}", i), Op::FinInpMall(i) => format!("m{}", i),
             Op::Extract => "X".into(), Op::OldFin => "L".into(), Op::OldFinMall => "N".into(),
@@ -515,6 +589,9 @@ fn err_class(e: &miniscript::psbt::Error) -> String {
                 InputError::MissingWitnessScript => "MissingWitnessScript", InputError::MissingUtxo => "MissingUtxo",
                 InputError::NonEmptyWitnessScript => "NonEmptyWitnessScript", InputError::NonEmptyRedeemScript => "NonEmptyRedeemScript",
                 InputError::NonStandardSighashType(_) => "NonStandardSighashType", InputError::WrongSighashFlag { .. } => "WrongSighashFlag",
+                // variants a later library version may add (the taproot twin of WrongSighashFlag)
+                #[allow(unreachable_patterns)]
+                other => if format!("{:?}", other).starts_with("WrongTapSighashFlag") { "WrongSighashFlag" } else { "Other" },
             };
             format!("{}@{}", c, i)
         }
@@ -578,12 +655,27 @@ fn apply(case: &Case, p: &mut Psbt, op: &Op) -> String {
                 match case.inputs[*i].spec.kind {
                     Kind::Wsh | Kind::ShWsh => p.inputs[*i].witness_script = Some(wrong),
                     Kind::Sh | Kind::ShWpkh => p.inputs[*i].redeem_script = Some(wrong),
+                    // a bare script must have neither (NonEmptyWitnessScript / NonEmptyRedeemScript)
+                    Kind::Bare => { if *i % 2 == 0 { p.inputs[*i].witness_script = Some(wrong) } else { p.inputs[*i].redeem_script = Some(wrong) } }
                     _ => {}
                 }
                 "ok".into()
             }
             Op::Drop(i) => { p.inputs[*i].witness_utxo = None; p.inputs[*i].non_witness_utxo = None; "ok".into() }
             Op::Restore(i) => { set_utxo(p, &case.inputs[*i], *i); "ok".into() }
+            Op::SighashField(i) => {
+                // toggle the input's sighash_type field between absent and SIGHASH_SINGLE (all
+                // signatures of the histories are SIGHASH_ALL / DEFAULT: a contradiction)
+                p.inputs[*i].sighash_type = if p.inputs[*i].sighash_type.is_some() { None } else { Some(EcdsaSighashType::Single.into()) };
+                "ok".into()
+            }
+            Op::DropOrigins(i) => {
+                // a PSBT whose updater recorded no key origins: pkh() fragments are then seen as raw
+                // key hashes by the finalizer and completed from the signature maps
+                p.inputs[*i].bip32_derivation.clear();
+                p.inputs[*i].tap_key_origins.clear();
+                "ok".into()
+            }
             Op::ShortPrev(i) => {
                 // (former F8) only a previous transaction, with fewer outputs than the spent vout
                 let mut prev = case.inputs[*i].prev_tx.clone();
@@ -778,7 +870,7 @@ fn setup_tok(case: &Case) -> String {
             match c.spec.kind {
                 Kind::Wsh | Kind::ShWsh => c.spec.derived.explicit_script().ok().map(|s| Miniscript::<PublicKey, Segwitv0>::decode_consensus(&s).is_ok()).unwrap_or(false),
                 Kind::Sh => c.spec.derived.explicit_script().ok().map(|s| Miniscript::<PublicKey, Legacy>::decode_consensus(&s).is_ok()).unwrap_or(false),
-                Kind::Pk => Miniscript::<PublicKey, BareCtx>::decode_consensus(&c.utxo.script_pubkey).is_ok(),
+                Kind::Pk | Kind::Bare => Miniscript::<PublicKey, BareCtx>::decode_consensus(&c.utxo.script_pubkey).is_ok(),
                 _ => true,
             }
         };
@@ -858,27 +950,29 @@ fn register_valid_at(out: &mut Out, tx: &Transaction, idx: usize, prevouts: &[Tx
     let prevout = &prevouts[idx];
     let spk = &prevout.script_pubkey;
     let mut cache = SighashCache::new(tx);
-    let mut ecdsa_digest: Option<(u32, [u8; 32])> = None;
     let mut inner = spk.clone();
     if spk.is_p2sh() { if let Some(r) = last_push(script_sig) { inner = ScriptBuf::from_bytes(r); } }
-    if inner.is_p2wpkh() {
-        if let Ok(h) = cache.p2wpkh_signature_hash(idx, &inner, prevout.value, EcdsaSighashType::All) { ecdsa_digest = Some((desc::DOM_SEGWITV0, h.to_byte_array())); }
-    } else if inner.is_p2wsh() {
-        if let Some(ws) = witness.last() {
-            if let Ok(h) = cache.p2wsh_signature_hash(idx, &ScriptBuf::from_bytes(ws.clone()), prevout.value, EcdsaSighashType::All) { ecdsa_digest = Some((desc::DOM_SEGWITV0, h.to_byte_array())); }
-        }
-    } else if !spk.is_p2tr() {
-        if let Ok(h) = cache.legacy_signature_hash(idx, &inner, EcdsaSighashType::All.to_u32()) { ecdsa_digest = Some((desc::DOM_LEGACY, h.to_byte_array())); }
-    }
-    if let Some((dom, digest)) = ecdsa_digest {
-        for (pk, sig) in candidates {
-            if let (Ok(pk_), Ok(sig_)) = (PublicKey::from_slice(pk), ecdsa::Signature::from_slice(sig)) {
-                if sig_.sighash_type == EcdsaSighashType::All && secp().verify_ecdsa(&Message::from_digest(digest), &sig_.signature, &pk_.inner).is_ok() {
+    // the digest an ECDSA signature with sighash type `ty` must verify against
+    let mut ecdsa_digest = |ty: EcdsaSighashType| -> Option<(u32, [u8; 32])> {
+        if inner.is_p2wpkh() {
+            cache.p2wpkh_signature_hash(idx, &inner, prevout.value, ty).ok().map(|h| (desc::DOM_SEGWITV0, h.to_byte_array()))
+        } else if inner.is_p2wsh() {
+            let ws = witness.last()?;
+            cache.p2wsh_signature_hash(idx, &ScriptBuf::from_bytes(ws.clone()), prevout.value, ty).ok().map(|h| (desc::DOM_SEGWITV0, h.to_byte_array()))
+        } else if !spk.is_p2tr() {
+            cache.legacy_signature_hash(idx, &inner, ty.to_u32()).ok().map(|h| (desc::DOM_LEGACY, h.to_byte_array()))
+        } else { None }
+    };
+    for (pk, sig) in candidates {
+        if let (Ok(pk_), Ok(sig_)) = (PublicKey::from_slice(pk), ecdsa::Signature::from_slice(sig)) {
+            if let Some((dom, digest)) = ecdsa_digest(sig_.sighash_type) {
+                if secp().verify_ecdsa(&Message::from_digest(digest), &sig_.signature, &pk_.inner).is_ok() {
                     out.line(&format!("D dsig {} {} {}", dom, hex(pk), hex(sig)), "ok");
                 }
             }
         }
     }
+    let mut cache = SighashCache::new(tx);
     if spk.is_p2tr() {
         let outkey = XOnlyPublicKey::from_slice(&spk.as_bytes()[2..34]).ok();
         if witness.len() == 1 {
@@ -927,9 +1021,14 @@ fn candidates(c: &InpCase) -> Vec<(Vec<u8>, Vec<u8>)> {
 }
 
 fn judge_spend_at(out: &mut Out, case: &Case, tx: &Transaction, i: usize, ss: &ScriptBuf, w: &Witness, info: &str) {
+    judge_spend_with(out, case, tx, i, ss, w, info, &[])
+}
+fn judge_spend_with(out: &mut Out, case: &Case, tx: &Transaction, i: usize, ss: &ScriptBuf, w: &Witness, info: &str, extra: &[(Vec<u8>, Vec<u8>)]) {
     let prevouts: Vec<TxOut> = case.inputs.iter().map(|c| c.utxo.clone()).collect();
     let wv: Vec<Vec<u8>> = w.to_vec();
-    register_valid_at(out, tx, i, &prevouts, ss, &wv, &candidates(&case.inputs[i]));
+    let mut cands = candidates(&case.inputs[i]);
+    cands.extend(extra.iter().cloned());
+    register_valid_at(out, tx, i, &prevouts, ss, &wv, &cands);
     out.line(&format!("J spend {} {} {} {} {} | {}", tx.lock_time.to_consensus_u32(), tx.input[i].sequence.to_consensus_u32(),
         hex(prevouts[i].script_pubkey.as_bytes()), hex(ss.as_bytes()), desc::wit_wire(&wv), info), "ok");
 }
@@ -1075,7 +1174,7 @@ fn random_history(case: &Case, rng: &mut Rng) -> Vec<Op> {
                 7 => Op::Corrupt(i),
                 8 => Op::Drop(i),
                 9 => Op::Restore(i),
-                10 => if rng.below(3) == 0 { Op::ShortPrev(i) } else { Op::Garbage(i) },
+                10 => match rng.below(6) { 0 | 1 => Op::ShortPrev(i), 2 => Op::SighashField(i), 3 => Op::DropOrigins(i), _ => Op::Garbage(i) },
                 _ => { let v = progress_ops(case, i); v[rng.below(v.len())].clone() }
             }
         };
@@ -1131,8 +1230,8 @@ fn judge_update(out: &mut Out, case: &Case) {
                 Kind::Sh | Kind::ShWpkh => match &inp.redeem_script { Some(rs) if ScriptBuf::new_p2sh(&rs.script_hash()) == *spk => {}, _ => bad = Some("redeem_script".into()) },
                 _ => {}
             }
-            if matches!(c.spec.kind, Kind::Wsh | Kind::Pk | Kind::Pkh | Kind::Wpkh) && inp.redeem_script.is_some() { bad = Some("unexpected-redeem_script".into()); }
-            if matches!(c.spec.kind, Kind::Sh | Kind::ShWpkh | Kind::Pk | Kind::Pkh | Kind::Wpkh) && inp.witness_script.is_some() { bad = Some("unexpected-witness_script".into()); }
+            if matches!(c.spec.kind, Kind::Wsh | Kind::Pk | Kind::Pkh | Kind::Wpkh | Kind::Bare) && inp.redeem_script.is_some() { bad = Some("unexpected-redeem_script".into()); }
+            if matches!(c.spec.kind, Kind::Sh | Kind::ShWpkh | Kind::Pk | Kind::Pkh | Kind::Wpkh | Kind::Bare) && inp.witness_script.is_some() { bad = Some("unexpected-witness_script".into()); }
             if c.spec.kind != Kind::Tr {
                 if inp.bip32_derivation.len() != c.spec.keys.len() { bad = Some("bip32-count".into()); }
                 for k in &c.spec.keys {
@@ -1148,7 +1247,13 @@ fn judge_update(out: &mut Out, case: &Case) {
                 if inp.tap_scripts.len() != c.spec.leaves.len() { bad = Some("tap_scripts-count".into()); }
                 for (cb, (script, ver)) in &inp.tap_scripts {
                     if *ver != LeafVersion::TapScript || !cb.verify_taproot_commitment(secp(), outkey, script) { bad = Some("control-block".into()); }
+                    if cb.internal_key != ik || cb.leaf_version != LeafVersion::TapScript || cb.merkle_branch.len() > 128 { bad = Some("control-block-fields".into()); }
                 }
+                // exactly the descriptor's leaves: same (control block, script) set, nothing else
+                let got: BTreeSet<(Vec<u8>, Vec<u8>)> = inp.tap_scripts.iter().map(|(cb, (s, _))| (cb.serialize(), s.to_bytes())).collect();
+                let want: BTreeSet<(Vec<u8>, Vec<u8>)> = c.spec.leaves.iter().map(|l| (l.cb.serialize(), l.script.to_bytes())).collect();
+                if got != want { bad = Some("tap_scripts-set".into()); }
+                if inp.tap_merkle_root.is_some() != !c.spec.leaves.is_empty() { bad = Some("tap_merkle_root-presence".into()); }
                 if !bip32_empty_ok(inp) { bad = Some("unexpected-bip32".into()); }
                 if inp.tap_key_origins.len() != c.spec.keys.len() { bad = Some("tap_key_origins-count".into()); }
                 for k in &c.spec.keys {
@@ -1178,26 +1283,91 @@ fn judge_update(out: &mut Out, case: &Case) {
             verdict(out, "update-mismatch-refused", &format!("{}@{} with {}", c.spec.tmpl, c.mode.name(), other.tmpl), bad);
         }
     }
-    // output 0 pays to input 0's descriptor
-    let c = &case.inputs[0];
-    let r = p.update_output_with_descriptor(0, &c.spec.desc);
-    let o = &p.outputs[0];
-    let mut bad = None;
-    if r.is_err() { bad = Some("update-failed".to_string()); }
-    else if c.spec.kind == Kind::Tr {
-        if let Descriptor::Tr(tr) = &c.spec.derived {
-            if o.tap_internal_key != Some(tr.internal_key().inner.x_only_public_key().0) { bad = Some("tap_internal_key".into()); }
-            if o.tap_key_origins.len() != c.spec.keys.len() { bad = Some("tap_key_origins".into()); }
-            if o.tap_tree.is_some() != !c.spec.leaves.is_empty() { bad = Some("tap_tree".into()); }
-            if let Some(t) = &o.tap_tree { if t.script_leaves().count() < c.spec.leaves.len() { bad = Some("tap_tree-leaves".into()); } }
+    judge_update_outputs(out, case);
+}
+
+/// `update_output_with_descriptor` on EVERY output: exact contents for the descriptor that pays
+/// to it, refusal (and no change) for any other descriptor and for an index out of range.
+fn judge_update_outputs(out: &mut Out, case: &Case) {
+    let base = { let mut p = case.psbt0.clone(); if p.outputs.len() != p.unsigned_tx.output.len() { p.outputs.resize(p.unsigned_tx.output.len(), Default::default()); } p };
+    for (j, od) in case.out_desc.iter().enumerate() {
+        let mut p = base.clone();
+        let mut bad: Option<String> = None;
+        let spk = p.unsigned_tx.output[j].script_pubkey.clone();
+        // a descriptor with another script_pubkey is refused and leaves the output alone
+        for c2 in case.inputs.iter() {
+            if c2.spec.derived.script_pubkey() != spk {
+                let r = p.update_output_with_descriptor(j, &c2.spec.desc);
+                if r.is_ok() { bad = Some("mismatching-descriptor-accepted".into()); }
+                if p.outputs[j] != base.outputs[j] { bad = Some("refused-but-changed".into()); }
+            }
         }
-    } else {
-        for k in &c.spec.keys {
-            match o.bip32_derivation.get(&key(*k).public.inner) { Some((fp, path)) if *fp == key(*k).fp && *path == key(*k).path => {}, _ => bad = Some(format!("origin-K{}", k)) }
+        if let Some(ix) = od {
+            let c = &case.inputs[*ix];
+            let r = p.update_output_with_descriptor(j, &c.spec.desc);
+            let o = p.outputs[j].clone();
+            if r.is_err() { bad = Some(format!("update-failed-{:?}", r)); }
+            else if c.spec.kind == Kind::Tr {
+                if let Descriptor::Tr(tr) = &c.spec.derived {
+                    let ik = tr.internal_key().inner.x_only_public_key().0;
+                    let outkey = XOnlyPublicKey::from_slice(&spk.as_bytes()[2..34]).unwrap();
+                    if o.tap_internal_key != Some(ik) { bad = Some("tap_internal_key".into()); }
+                    if !o.bip32_derivation.is_empty() || o.witness_script.is_some() || o.redeem_script.is_some() { bad = Some("unexpected-non-tap-fields".into()); }
+                    // key -> (leaf hashes, origin), exactly
+                    let mut want: BTreeMap<XOnlyPublicKey, (Vec<TapLeafHash>, (Fingerprint, DerivationPath))> = BTreeMap::new();
+                    for k in &c.spec.keys {
+                        let mut lhs: Vec<TapLeafHash> = c.spec.leaves.iter().filter(|l| l.keys.contains(k)).map(|l| TapLeafHash::from_script(&l.script, LeafVersion::TapScript)).collect();
+                        lhs.sort(); lhs.dedup();
+                        want.insert(key(*k).public.inner.x_only_public_key().0, (lhs, (key(*k).fp, key(*k).path.clone())));
+                    }
+                    if o.tap_key_origins != want { bad = Some("tap_key_origins".into()); }
+                    match (&o.tap_tree, c.spec.leaves.is_empty()) {
+                        (None, true) => {}
+                        (Some(t), false) => {
+                            // exact leaf set with depths and scripts ...
+                            let got: BTreeSet<(usize, Vec<u8>, u8)> = t.script_leaves().map(|l| (l.merkle_branch().len(), l.script().to_bytes(), l.version().to_consensus())).collect();
+                            let wantl: BTreeSet<(usize, Vec<u8>, u8)> = c.spec.leaves.iter().map(|l| (l.cb.merkle_branch.len(), l.script.to_bytes(), LeafVersion::TapScript.to_consensus())).collect();
+                            if got != wantl { bad = Some("tap_tree-leaves".into()); }
+                            // ... and the tree as a whole commits to the output key (rust-bitcoin only)
+                            for l in t.script_leaves() {
+                                let mut h = miniscript::bitcoin::taproot::TapNodeHash::from(TapLeafHash::from_script(l.script(), l.version()));
+                                for sib in l.merkle_branch().iter() { h = miniscript::bitcoin::taproot::TapNodeHash::from_node_hashes(h, *sib); }
+                                if ik.tap_tweak(secp(), Some(h)).0.to_inner() != outkey { bad = Some("tap_tree-leaf-does-not-commit-to-output-key".into()); }
+                            }
+                        }
+                        _ => bad = Some("tap_tree-presence".into()),
+                    }
+                }
+            } else {
+                let want: BTreeMap<secp256k1::PublicKey, (Fingerprint, DerivationPath)> = c.spec.keys.iter().map(|k| (key(*k).public.inner, (key(*k).fp, key(*k).path.clone()))).collect();
+                if o.bip32_derivation != want { bad = Some("bip32_derivation".into()); }
+                if o.tap_internal_key.is_some() || o.tap_tree.is_some() || !o.tap_key_origins.is_empty() { bad = Some("unexpected-tap-fields".into()); }
+                let ok = match c.spec.kind {
+                    Kind::Wsh => matches!((&o.witness_script, &o.redeem_script), (Some(ws), None) if ScriptBuf::new_p2wsh(&ws.wscript_hash()) == spk),
+                    Kind::ShWsh => matches!((&o.witness_script, &o.redeem_script), (Some(ws), Some(rs)) if ScriptBuf::new_p2wsh(&ws.wscript_hash()) == *rs && ScriptBuf::new_p2sh(&rs.script_hash()) == spk),
+                    Kind::Sh => matches!((&o.witness_script, &o.redeem_script), (None, Some(rs)) if ScriptBuf::new_p2sh(&rs.script_hash()) == spk),
+                    Kind::ShWpkh => matches!((&o.witness_script, &o.redeem_script), (None, Some(rs)) if ScriptBuf::new_p2sh(&rs.script_hash()) == spk
+                        && key(c.spec.keys[0]).public.wpubkey_hash().map(|h| ScriptBuf::new_p2wpkh(&h) == *rs).unwrap_or(false)),
+                    _ => o.witness_script.is_none() && o.redeem_script.is_none(),
+                };
+                if !ok { bad = Some("witness_script/redeem_script".into()); }
+            }
+            // updating twice changes nothing
+            let _ = p.update_output_with_descriptor(j, &c.spec.desc);
+            if p.outputs[j] != o { bad = Some("second-update-changed-output".into()); }
+            out.count(&format!("update-output-consistent {}", c.spec.kind.name()));
+        } else {
+            out.count("update-output-consistent plain-output");
         }
+        // the other outputs are never touched
+        for j2 in 0..p.outputs.len() { if j2 != j && p.outputs[j2] != base.outputs[j2] { bad = Some(format!("output{}-changed", j2)); } }
+        verdict(out, "update-output-consistent", &format!("{} out={}", case.label, j), bad);
     }
-    if p.update_output_with_descriptor(1, &c.spec.desc).is_ok() { bad = Some("mismatching-output-accepted".into()); }
-    verdict(out, "update-output-consistent", &c.spec.tmpl, bad);
+    // index out of range
+    let mut p = base.clone();
+    let r = p.update_output_with_descriptor(base.outputs.len(), &case.inputs[0].spec.desc);
+    verdict(out, "update-output-consistent", &format!("{} out=out-of-range", case.label),
+        if r.is_ok() { Some("accepted".to_string()) } else if p.outputs != base.outputs { Some("changed".into()) } else { None });
 }
 fn bip32_empty_ok(inp: &psbt::Input) -> bool { inp.bip32_derivation.is_empty() && inp.redeem_script.is_none() && inp.witness_script.is_none() }
 
@@ -1228,6 +1398,209 @@ fn judge_sighash(out: &mut Out, case: &Case) {
         for (what, lib, me) in checks {
             let bad = if lib.is_none() { Some("library-error".to_string()) } else if lib != me { Some("digest-differs".into()) } else { None };
             verdict(out, "sighash-agrees", &format!("{} input={} {}", case.label, i, what), bad);
+        }
+    }
+}
+
+fn ety_name(t: EcdsaSighashType) -> &'static str {
+    match t { EcdsaSighashType::All => "ALL", EcdsaSighashType::None => "NONE", EcdsaSighashType::Single => "SINGLE",
+        EcdsaSighashType::AllPlusAnyoneCanPay => "ALL|ACP", EcdsaSighashType::NonePlusAnyoneCanPay => "NONE|ACP", EcdsaSighashType::SinglePlusAnyoneCanPay => "SINGLE|ACP" }
+}
+fn tty_name(t: TapSighashType) -> &'static str {
+    match t { TapSighashType::Default => "DEFAULT", TapSighashType::All => "ALL", TapSighashType::None => "NONE", TapSighashType::Single => "SINGLE",
+        TapSighashType::AllPlusAnyoneCanPay => "ALL|ACP", TapSighashType::NonePlusAnyoneCanPay => "NONE|ACP", TapSighashType::SinglePlusAnyoneCanPay => "SINGLE|ACP" }
+}
+
+/// put every good preimage of the descriptor into input `i`
+fn add_preimages(case: &Case, p: &mut Psbt, i: usize) {
+    for j in case.inputs[i].spec.hashes.clone() { apply(case, p, &Op::Pre(i, j, true)); }
+}
+
+/// Every sighash type: (a) `sighash_msg` with the PSBT's `sighash_type` field set equals the
+/// digest computed with rust-bitcoin's SighashCache for that type (both fail together, e.g.
+/// taproot SINGLE without a matching output); (b) signatures of that type made over the
+/// INDEPENDENT digest finalize exactly when the default-type signatures do, and the result is
+/// a valid spend (Lean verifySpend; the signature is validated against the digest of its own
+/// sighash byte).
+fn judge_sighash_types(out: &mut Out, case: &Case) {
+    let n = case.inputs.len();
+    let mut upd = case.psbt0.clone();
+    for i in 0..n { let _ = upd.update_input_with_descriptor(i, &case.inputs[i].spec.desc); }
+    let prevouts: Vec<TxOut> = case.inputs.iter().map(|c| c.utxo.clone()).collect();
+    let tx = upd.unsigned_tx.clone();
+    for i in 0..n {
+        let c = &case.inputs[i];
+        // reference: default-type signatures
+        let reference = |keypath: bool| -> bool {
+            let mut p = upd.clone();
+            if keypath { apply(case, &mut p, &Op::KeySig(i, true)); }
+            else { for op in progress_ops(case, i) { apply(case, &mut p, &op); } }
+            apply(case, &mut p, &Op::FinInp(i)) == "ok"
+        };
+        if c.spec.kind == Kind::Tr {
+            let ik = match &c.spec.derived { Descriptor::Tr(tr) => key_id(tr.internal_key()).unwrap(), _ => unreachable!() };
+            let root = match &c.spec.derived { Descriptor::Tr(tr) => tr.spend_info().merkle_root(), _ => unreachable!() };
+            let ref_script = !c.spec.leaves.is_empty() && reference(false);
+            let ref_key = reference(true);
+            for ty in TAP_TYPES {
+                let mut p = upd.clone();
+                p.inputs[i].sighash_type = Some(ty.into());
+                let mut cache = SighashCache::new(&tx);
+                let mut targets: Vec<(String, Option<TapLeafHash>, Option<&ScriptBuf>)> = vec![("keypath".into(), None, None)];
+                for (li, l) in c.spec.leaves.iter().enumerate() { targets.push((format!("leaf{}", li), Some(l.hash), Some(&l.script))); }
+                for (what, lh, ls) in &targets {
+                    let lib = p.sighash_msg(i, &mut cache, *lh).ok().map(|m| *m.to_secp_msg().as_ref());
+                    let me = tap_digest_typed(&tx, i, &prevouts, *ls, ty);
+                    out.count(&format!("sighash type tap {} {}", tty_name(ty), if me.is_some() { "digest" } else { "no-digest" }));
+                    verdict(out, "sighash-agrees", &format!("{} input={} {} type={}", case.label, i, what, tty_name(ty)),
+                        if lib != me { Some(if lib.is_none() { "library-error".to_string() } else if me.is_none() { "library-digest-where-none-exists".into() } else { "digest-differs".into() }) } else { None });
+                }
+                // key path with a signature of this type
+                if let Some(d) = tap_digest_typed(&tx, i, &prevouts, None, ty) {
+                    let kp = secp256k1::Keypair::from_secret_key(secp(), &key(ik).secret).tap_tweak(secp(), root).to_inner();
+                    let mut sig = sign_schnorr(d, &kp); sig.sighash_type = ty;
+                    let mut q = p.clone();
+                    q.inputs[i].tap_key_sig = Some(sig);
+                    let r = apply(case, &mut q, &Op::FinInp(i));
+                    let id = format!("{} input={} keypath type={}", case.label, i, tty_name(ty));
+                    verdict(out, "sighash-type-finalizes", &id, if ref_key && r != "ok" { Some(format!("default-type-finalizes-but-{}", r)) } else { None });
+                    if r == "ok" {
+                        let w = q.inputs[i].final_script_witness.clone().unwrap_or_default();
+                        judge_spend_with(out, case, &tx, i, &ScriptBuf::new(), &w, &id, &[]);
+                    }
+                }
+                // script path with signatures of this type
+                if !c.spec.leaves.is_empty() {
+                    let mut q = p.clone();
+                    let mut extra = vec![];
+                    let mut all = true;
+                    for (li, l) in c.spec.leaves.iter().enumerate() {
+                        match tap_digest_typed(&tx, i, &prevouts, Some(&l.script), ty) {
+                            None => all = false,
+                            Some(d) => for k in &l.keys {
+                                let kp = secp256k1::Keypair::from_secret_key(secp(), &key(*k).secret);
+                                let mut sig = sign_schnorr(d, &kp); sig.sighash_type = ty;
+                                let x = key(*k).public.inner.x_only_public_key().0;
+                                q.inputs[i].tap_script_sigs.insert((x, l.hash), sig);
+                                extra.push((x.serialize().to_vec(), sig.to_vec()));
+                                let _ = li;
+                            }
+                        }
+                    }
+                    if all {
+                        add_preimages(case, &mut q, i);
+                        let r = apply(case, &mut q, &Op::FinInp(i));
+                        let id = format!("{} input={} scriptpath type={}", case.label, i, tty_name(ty));
+                        verdict(out, "sighash-type-finalizes", &id, if ref_script && r != "ok" { Some(format!("default-type-finalizes-but-{}", r)) } else { None });
+                        if r == "ok" {
+                            let w = q.inputs[i].final_script_witness.clone().unwrap_or_default();
+                            judge_spend_with(out, case, &tx, i, &ScriptBuf::new(), &w, &id, &extra);
+                        }
+                    }
+                }
+            }
+        } else {
+            let refok = reference(false);
+            for ty in ECDSA_TYPES {
+                let mut p = upd.clone();
+                p.inputs[i].sighash_type = Some(ty.into());
+                let mut cache = SighashCache::new(&tx);
+                let lib = p.sighash_msg(i, &mut cache, None).ok().map(|m| *m.to_secp_msg().as_ref());
+                let me = ecdsa_digest_typed(&c.spec, &tx, i, &c.utxo, ty);
+                out.count(&format!("sighash type ecdsa {} {}{}", ety_name(ty), if me.is_some() { "digest" } else { "no-digest" },
+                    if i >= tx.output.len() && matches!(ty, EcdsaSighashType::Single | EcdsaSighashType::SinglePlusAnyoneCanPay) { " (no matching output)" } else { "" }));
+                verdict(out, "sighash-agrees", &format!("{} input={} ecdsa type={}", case.label, i, ety_name(ty)),
+                    if lib != me { Some(if lib.is_none() { "library-error".to_string() } else { "digest-differs".into() }) } else { None });
+                if let Some(d) = me {
+                    let mut q = p.clone();
+                    let mut extra = vec![];
+                    for k in &c.spec.keys {
+                        let mut sig = sign_ecdsa(d, &key(*k).secret); sig.sighash_type = ty;
+                        q.inputs[i].partial_sigs.insert(key(*k).public, sig);
+                        extra.push((key(*k).public.to_bytes(), sig.to_vec()));
+                    }
+                    add_preimages(case, &mut q, i);
+                    let r = apply(case, &mut q, &Op::FinInp(i));
+                    let id = format!("{} input={} type={}", case.label, i, ety_name(ty));
+                    verdict(out, "sighash-type-finalizes", &id, if refok && r != "ok" { Some(format!("default-type-finalizes-but-{}", r)) } else { None });
+                    if r == "ok" {
+                        let ss = q.inputs[i].final_script_sig.clone().unwrap_or_default();
+                        let w = q.inputs[i].final_script_witness.clone().unwrap_or_default();
+                        judge_spend_with(out, case, &tx, i, &ss, &w, &id, &extra);
+                        // the extractor accepts it as well (sighash_type field and signature bytes agree)
+                        if n == 1 {
+                            let rx = apply(case, &mut q, &Op::Extract);
+                            verdict(out, "sighash-type-extracts", &id, if rx.starts_with("ok") { None } else { Some(rx) });
+                        }
+                    }
+                }
+            }
+        }
+    }
+}
+
+/// A signature whose sighash byte contradicts the input's `sighash_type` field must not be
+/// used: every finalizing entry point has to refuse the input (BIP 174: a signature that does
+/// not match the PSBT's sighash type must not be added / finalized).
+fn judge_sighash_mismatch(out: &mut Out, spec: &Spec, rng: &mut Rng) {
+    let case = build_case(vec![spec.clone()], rng);
+    let mut p = case.psbt0.clone();
+    for op in progress_ops(&case, 0) { apply(&case, &mut p, &op); }
+    if spec.kind == Kind::Tr && spec.leaves.is_empty() { apply(&case, &mut p, &Op::KeySig(0, true)); }
+    // reference: without the contradiction the input finalizes
+    { let mut q = p.clone(); if apply(&case, &mut q, &Op::Fin) != "ok" { out.count("sighash-mismatch skipped (not finalizable)"); return; } }
+    let (field, fname, sname): (PsbtSighashType, &str, &str) = if spec.kind == Kind::Tr { (TapSighashType::All.into(), "ALL", "DEFAULT") } else { (EcdsaSighashType::Single.into(), "SINGLE", "ALL") };
+    p.inputs[0].sighash_type = Some(field);
+    for (name, ops) in [("finalize_mut", vec![Op::Fin]), ("finalize_mall_mut", vec![Op::FinMall]), ("finalize_inp_mut", vec![Op::FinInp(0)]),
+                        ("finalize_inp_mall_mut", vec![Op::FinInpMall(0)]), ("deprecated-finalize", vec![Op::OldFin]), ("extract-after-finalize_mut", vec![Op::Fin, Op::Extract])] {
+        let mut q = p.clone();
+        let mut last = String::new();
+        for op in &ops { last = apply(&case, &mut q, op); }
+        let refused = !last.starts_with("ok");
+        out.count(&format!("sighash-mismatch {} {}", name, if refused { last.split('@').next().unwrap().to_string() } else { "ACCEPTED".into() }));
+        verdict(out, "sighash-mismatch-refused", &format!("{} {} field={} sig={}", name, spec.tmpl, fname, sname),
+            if refused { None } else { Some("signature-with-contradicting-sighash-type-used".into()) });
+    }
+}
+
+/// pkh() fragments when the finalizer cannot map the key hash back to a key through
+/// `bip32_derivation` / `tap_key_origins`: the script is then decoded with a RAW key hash and the
+/// key comes from `partial_sigs` / `tap_script_sigs` (`lookup_raw_pkh_ecdsa_sig`,
+/// `lookup_raw_pkh_tap_leaf_script_sig`).  The input must finalize to the same bytes as with
+/// origins, and the result must be a valid spend (leaf `DUP HASH160 <hash160(x-only)>
+/// EQUALVERIFY CHECKSIG` in taproot).
+fn judge_rawpkh(out: &mut Out, spec: &Spec, rng: &mut Rng) {
+    let case = build_case(vec![spec.clone()], rng);
+    let mut full = case.psbt0.clone();
+    for op in progress_ops(&case, 0) { apply(&case, &mut full, &op); }
+    let mut variants: Vec<(&str, Psbt)> = vec![("with-origins", full.clone())];
+    { let mut p = full.clone(); apply(&case, &mut p, &Op::DropOrigins(0)); variants.push(("origins-dropped", p)); }
+    if spec.kind == Kind::Tr {
+        // nothing but the leaf scripts and the signatures
+        let mut p = case.psbt0.clone();
+        p.inputs[0].tap_scripts = full.inputs[0].tap_scripts.clone();
+        p.inputs[0].tap_script_sigs = full.inputs[0].tap_script_sigs.clone();
+        p.inputs[0].sha256_preimages = full.inputs[0].sha256_preimages.clone();
+        p.inputs[0].hash160_preimages = full.inputs[0].hash160_preimages.clone();
+        variants.push(("tap_scripts-and-sigs-only", p));
+    }
+    let mut reference: Option<(String, Vec<u8>)> = None;
+    for (name, v) in variants {
+        let mut q = v.clone();
+        let r = apply(&case, &mut q, &Op::Fin);
+        let fin = (r.clone(), q.inputs[0].final_script_witness.as_ref().map(|w| miniscript::bitcoin::consensus::serialize(w)).unwrap_or_default()
+            .into_iter().chain(q.inputs[0].final_script_sig.as_ref().map(|s| s.to_bytes()).unwrap_or_default()).collect::<Vec<u8>>());
+        let bad = match &reference {
+            None => { reference = Some(fin.clone()); None }
+            Some(rf) => if rf.0 == "ok" && *rf != fin { Some(format!("differs-from-with-origins:{}", r)) } else { None },
+        };
+        out.count(&format!("rawpkh {} {}", name, r.split('@').next().unwrap()));
+        let id = format!("{} {}", spec.tmpl, name);
+        verdict(out, "rawpkh-finalizes", &id, bad);
+        if r == "ok" {
+            let ss = q.inputs[0].final_script_sig.clone().unwrap_or_default();
+            let w = q.inputs[0].final_script_witness.clone().unwrap_or_default();
+            judge_spend_at(out, &case, &q.unsigned_tx, 0, &ss, &w, &format!("rawpkh {}", id));
         }
     }
 }
@@ -1288,6 +1661,13 @@ fn judge_nopanic(out: &mut Out, pool: &[Spec], rng: &mut Rng) {
             for (cb, (_, _)) in items { p.inputs[0].tap_scripts.insert(cb, (ScriptBuf::from_bytes(vec![0x6a, 0xff]), LeafVersion::TapScript)); }
             p.inputs[0].tap_internal_key = None;
             variants.push(("tap-scripts-not-miniscript", p)); }
+        {   // a bare script that is a miniscript but not a standard bare one: `<A> CHECKSIGVERIFY <B> CHECKSIG`
+            let mut b = vec![0x21]; b.extend(key(0).public.to_bytes()); b.push(0xad); b.push(0x21); b.extend(key(1).public.to_bytes()); b.push(0xac);
+            let mut p = ready.clone();
+            p.inputs[0].witness_utxo = Some(TxOut { value: Amount::from_sat(1), script_pubkey: ScriptBuf::from_bytes(b) }); p.inputs[0].non_witness_utxo = None;
+            p.inputs[0].witness_script = None; p.inputs[0].redeem_script = None;
+            variants.push(("bare-nonstandard-miniscript", p)); }
+        { let mut p = ready.clone(); p.inputs[0].sighash_type = Some(PsbtSighashType::from_u32(0x03)); p.inputs[1].sighash_type = Some(PsbtSighashType::from_u32(0x81)); variants.push(("sighash-type-contradicts-signatures", p)); }
         { let mut p = ready.clone(); p.unsigned_tx.version = transaction::Version::ONE; p.unsigned_tx.lock_time = absolute::LockTime::from_consensus(500_000_001); variants.push(("version-1-time-locktime", p)); }
         for (name, v) in variants {
             let mut calls: Vec<(&str, Box<dyn Fn(&mut Psbt)>)> = vec![
@@ -1330,6 +1710,7 @@ pub fn run(out: &mut Out, thorough: bool, seed: u64) {
         let case = build_case(vec![spec.clone()], &mut rng);
         judge_update(out, &case);
         judge_sighash(out, &case);
+        judge_sighash_types(out, &case);
         let mut h = progress_ops(&case, 0);
         if case.inputs[0].keysig.is_some() && spec.leaves.is_empty() { h.push(Op::KeySig(0, true)); }
         h.extend([Op::FinInp(0), Op::Fin, Op::Extract]);
@@ -1348,7 +1729,7 @@ pub fn run(out: &mut Out, thorough: bool, seed: u64) {
         let n = 2 + rng.below(2);
         // kind first (uniform over the 8 output types), then a descriptor of that kind
         let specs: Vec<Spec> = (0..n).map(|_| {
-            let kinds = [Kind::Pk, Kind::Pkh, Kind::Wpkh, Kind::ShWpkh, Kind::Wsh, Kind::ShWsh, Kind::Sh, Kind::Tr];
+            let kinds = [Kind::Pk, Kind::Pkh, Kind::Wpkh, Kind::ShWpkh, Kind::Wsh, Kind::ShWsh, Kind::Sh, Kind::Tr, Kind::Bare];
             let k = kinds[rng.below(kinds.len())];
             let of_kind: Vec<&Spec> = pool.iter().filter(|s| s.kind == k).collect();
             if of_kind.is_empty() { pool[rng.below(pool.len())].clone() } else { of_kind[rng.below(of_kind.len())].clone() }
@@ -1359,10 +1740,25 @@ pub fn run(out: &mut Out, thorough: bool, seed: u64) {
         run_history(out, &case, &h, &mut judged);
         if rng.below(3) == 0 { judge_order(out, &case, &mut rng); }
         if rng.below(6) == 0 { judge_update(out, &case); judge_sighash(out, &case); }
+        if rng.below(12) == 0 { judge_sighash_types(out, &case); }
     }
     // 3. allow_mall is honoured by every entry point (malleable scripts: outside the sane pool)
     let mut fixed = Rng(0xC14A);
     for s in mall.iter().chain(pool.iter().take(12)) { judge_mall(out, s, &mut fixed); }
+    // 3b. a signature contradicting the input's sighash_type field is refused
+    {
+        let mut seen = BTreeSet::new();
+        let mut fixed = Rng(0xC14C);
+        for s in pool.iter() { if seen.insert(s.kind.name()) || s.tmpl == "tr(K0)" { judge_sighash_mismatch(out, s, &mut fixed); } }
+    }
+    // 3c. pkh() fragments completed from the signature maps (raw key hashes)
+    {
+        let mut fixed = Rng(0xC14D);
+        for t in ["tr(K0,pkh(K1))", "tr(K0,{pkh(K1),pk(K2)})", "tr(K0,{and_v(v:pkh(K1),pk(K2)),pkh(K3)})"] {
+            if let Some(s) = spec_from_tmpl(t) { judge_rawpkh(out, &s, &mut fixed); }
+        }
+        for s in pool.iter().filter(|s| s.tmpl.contains("pkh(") && !matches!(s.kind, Kind::Pkh | Kind::Wpkh | Kind::ShWpkh)) { judge_rawpkh(out, s, &mut fixed); }
+    }
     // 4. adversarial PSBTs
     judge_nopanic(out, &pool, &mut Rng(0xC14B));
     let _ = std::panic::take_hook();
